@@ -22,6 +22,18 @@ func GenC08(seed uint64, run int) *Trace {
 	for i := 0; i < nkeys; i++ {
 		keys = append(keys, BlkSpec{Kind: Pick(r, []string{"raw", "raw", "cbor", "s512", "sha1"}), Seed: uint64(10 + i), Size: r.Range(0, 24)})
 	}
+	if r.Chance(1, 4) && nkeys >= 2 {
+		// two distinct blocks whose multihashes carry the same digest bytes under different hash codes
+		// (dbl-sha2-256 of x, sha2-256 of sha2-256(x)): distinct keys that digest-keyed structures must tell apart
+		sz := r.Range(0, 24)
+		keys[0] = BlkSpec{Kind: "dbl", Seed: 30, Size: sz}
+		keys[1] = BlkSpec{Kind: "shasha", Seed: 30, Size: sz}
+	}
+	if target != "dw" {
+		// options that change which code paths the lookups take (no identity keys are used, so the answers
+		// of the model do not depend on them)
+		cfg.StoreID = r.Chance(1, 3)
+	}
 	ss := &SchedSpec{Target: target, PickSeed: r.U64(), MaxSteps: 20000}
 	if target == "dw" && r.Bool() {
 		ss.Callbacks = r.Range(1, 2)
